@@ -28,6 +28,8 @@ CMPOPS = ["==", "!=", "<", "<=", ">", ">=", "is", "is not", "in", "not in"]
 EXPRESSIONS = (
     ATOMS
     + [f"a {op} b" for op in BINOPS] + [f"a {op} b {op2} c" for op, op2 in [("+", "*"), ("*", "+"), ("**", "**"), ("-", "-"), ("/", "//"), ("<<", "+"), ("&", "|"), ("|", "^")]]
+    + ["(-1) ** 2", "(-2) ** a", "-1 ** 2", "2 ** -1", "(-1.5) ** 2", "(-8).bit_length()", "(-1).real", "- -1", "+-1", "-(-1)", "(-1j) ** 2", "(-a).b", "(-1)[0:1]",
+       "f'<{a}>' '!'", "'== ' f'{a}' ' =='", "'a' f'{b}'", "f'{a}' 'b' 'c'", "'a' 'b' f'{c}' 'd'", "f'{a}' f'{b}' 'c'", "'x' 'y' 'z'"]
     + ["-a", "+a", "~a", "not a", "not a == b", "-a ** b", "(-a) ** b", "a if b else c", "a if b else c if d else e", "(a if b else c) if d else e"]
     + [f"a {op} b" for op in CMPOPS] + ["a < b < c", "a < b == c >= d", "a in b not in c", "not (a < b)"]
     + ["a and b", "a or b", "a and b or c", "a or b and c", "(a or b) and c", "not a and b"]
